@@ -26,7 +26,7 @@ RULE = ("coarsen_bins: every valid bin table with 1 chromosome of length <=7 and
         "coarsen_cooler: corpus (D1 longer-last-bin tables, chromosomes shorter than k, empty cooler, empty rows at chunk edges, variable tables whose coarsening looks fixed, bin size 1, one-bin chromosomes) x k in {2,3,5,n+1} x chunksize in {1,2,7,nnz+1} (all 16 combinations for the first 4 corpus coolers, 1 chunk size per k for the other corpus coolers, 2 for the random ones), "
         "seeded random coolers (fixed / variable / longer-last / variable-that-coarsens-to-fixed tables, 1-4 chromosomes, symmetric and square storage, 9 pixel patterns) x all four k x two chunk sizes, "
         "fixed-width tables of EVERY width 1..45 x k in {2,7} and 1..20 x k in {3,5} (thorough: 1..200 x {2,3,5,7}) at function level (chunk stream of CoolerCoarsener vs exact integer division) and end to end for widths 7,49,98,103,107,161,187,196 + random widths <= 2000 with >= 3 coarse bins per chromosome; nproc=2 and the CLI on a few, chains k1;k2 vs k1*k2 (fixed and variable tables), merge/coarsen interleavings, a second value column with agg max/min/sum incl. the D20 corpus (columns=[count,w], columns=[w]); "
-        "coarse bin sizes B = base*k for base in {1,7,10,11,1000,11000} x k in 2..60 and random B <= 10^5 on a cooler whose bins start exactly on the multiples of B, at least 10 B whose float64 reciprocal rounds down next to friendly ones; `cooler coarsen` (and one `cooler zoomify`) with every order of 1..3 --field options over count/w/s (source holds all three), each with / without agg= and dtype=, per column vs the requested aggregate (sum by default) of the block and vs the model; every output judged also by its header attributes (storage-mode, bin-type/size, nbins, nchroms, nnz, sum, format) and by Cooler.matrix(balance=False)[:] vs the (symmetric completion of the) block aggregation; bases in legacy form (11 optional attributes removed one at a time, format-version 2; symmetric and square; merge inputs); LARGE genomes with few bins (total length just below / at / above 2^31 and 2^32, every chromosome < 2^31; fixed bins of 100 Mb..1 Gb and variable tables; symmetric and square; k = 2, 3 and k collapsing every chromosome to one bin; chunk sizes 1/7/nnz+1; nproc 1 and 2; zoomify on the same bases); HISTORIES in one process (the same source and destination URI strings while the source file is rewritten in between: re-binned coarser/finer, other chromsizes, variable widths, fewer/more bins, square, nproc 1 then 2 and 2 then 1, several chunk sizes; a hand-made ladder over two alternating file names), every output judged for the data stored now; every level (copied bases included, k=1) of zoomify_cooler / `cooler zoomify --base-uri` files built from 1, 2 and 3 base coolers in every listing order (bases that are / are not multiples of each other) vs the block aggregation of its own base; fixed parameter scenarios (output URI in a nested group, append into an existing file, same-file in/out, re-run onto an existing group, mode=w, nproc 2/3 with an uneven span count, CLI -p/--append/-a/-o URI, dtypes full/partial dict, lock=, float64 counts, weight bin column on the input, trailing empty rows, CoolerCoarsener batchsize 2/3); non-trivial = nnz>0 and at least 2 old bins; distinct by input hash")
+        "variable-width tables with gaps between consecutive bins and a first bin not starting at 0 (gaps on and off group boundaries, k in {2,3}, chunk sizes 1/7, nproc 1/2): new bin = (chrom, start of the first, end of the last old bin of its group); coarse bin sizes B = base*k for base in {1,7,10,11,1000,11000} x k in 2..60 and random B <= 10^5 on a cooler whose bins start exactly on the multiples of B, at least 10 B whose float64 reciprocal rounds down next to friendly ones; `cooler coarsen` (and one `cooler zoomify`) with every order of 1..3 --field options over count/w/s (source holds all three), each with / without agg= and dtype=, per column vs the requested aggregate (sum by default) of the block and vs the model; every output judged also by its header attributes (storage-mode, bin-type/size, nbins, nchroms, nnz, sum, format) and by Cooler.matrix(balance=False)[:] vs the (symmetric completion of the) block aggregation; bases in legacy form (11 optional attributes removed one at a time, format-version 2; symmetric and square; merge inputs); LARGE genomes with few bins (total length just below / at / above 2^31 and 2^32, every chromosome < 2^31; fixed bins of 100 Mb..1 Gb and variable tables; symmetric and square; k = 2, 3 and k collapsing every chromosome to one bin; chunk sizes 1/7/nnz+1; nproc 1 and 2; zoomify on the same bases); HISTORIES in one process (the same source and destination URI strings while the source file is rewritten in between: re-binned coarser/finer, other chromsizes, variable widths, fewer/more bins, square, nproc 1 then 2 and 2 then 1, several chunk sizes; a hand-made ladder over two alternating file names), every output judged for the data stored now; every level (copied bases included, k=1) of zoomify_cooler / `cooler zoomify --base-uri` files built from 1, 2 and 3 base coolers in every listing order (bases that are / are not multiples of each other) vs the block aggregation of its own base; fixed parameter scenarios (output URI in a nested group, append into an existing file, same-file in/out, re-run onto an existing group, mode=w, nproc 2/3 with an uneven span count, CLI -p/--append/-a/-o URI, dtypes full/partial dict, lock=, float64 counts, weight bin column on the input, trailing empty rows, CoolerCoarsener batchsize 2/3); non-trivial = nnz>0 and at least 2 old bins; distinct by input hash")
 TRUSTED = ["pandas groupby(sort=True).aggregate('sum') is modelled as the canonical aggregate (Model/Pixels.v) and observed through CoolerCoarsener",
            "create() stores the concatenation of the chunk stream (property C01/C02, observed here through the output cooler)",
            "multiprocess.Pool.map is order preserving (source-pattern assertion on coarsen_cooler + nproc=2 runs)"]
@@ -1533,6 +1533,85 @@ def part_binsize_sweep(ctx):
     return n
 
 
+# -------- part 13: variable-width tables with GAPS between consecutive bins / a first bin not starting at 0
+GAPPED_TABLES = [
+    # chrA [0,7) [7,20) | gap | [25,31) [31,40): the gap sits on a k=2 group boundary, inside a k=3 group
+    [[(0, 0, 7), (0, 7, 20), (0, 25, 31), (0, 31, 40)], [(1, 0, 5), (1, 9, 12), (1, 12, 30)]],
+    # first bin not starting at 0, gaps inside groups, restriction-fragment-like with filtered fragments
+    [[(0, 3, 10), (0, 14, 20), (0, 20, 26), (0, 33, 41), (0, 41, 50), (0, 58, 60), (0, 60, 77)], [(1, 5, 8)], [(2, 2, 4), (2, 10, 16), (2, 16, 17), (2, 40, 45), (2, 46, 90)]],
+    # (a gapped table whose widths are all equal is left out: get_binsize reports a bin size for it and the division
+    #  path then mis-bins -- not a tiling, outside the domain of C08/C20; reported to the lead)
+    [[(0, 0, 10), (0, 10, 21), (0, 30, 40), (0, 40, 52), (0, 70, 80)], [(1, 10, 20), (1, 20, 33), (1, 50, 57)]],
+]
+
+
+def part_gapped(ctx):
+    import cooler
+    rng = ctx.rng
+    tmpdir = ctx.tmp / "gapped"
+    tmpdir.mkdir(exist_ok=True)
+    cases = []
+    for ti, blocks in enumerate(GAPPED_TABLES):
+        n = sum(len(b) for b in blocks)
+        for k in (2, 3):
+            symm = (ti + k) % 2 == 0
+            cases.append({"fn": "coarsen (gapped variable-width table)", "blocks": [[list(x) for x in blk] for blk in blocks], "k": k, "symmetric": symm,
+                          "pixels": [list(p) for p in G.random_pixels(rng, n, symm, "dense")], "chunksize": rng.choice([1, 7]),
+                          "nproc": 2 if (ti == 1 and k == 2) else 1})
+    exprs = []
+    for c in cases:
+        flat = [tuple(x) for blk in c["blocks"] for x in blk]
+        sz = [blk[-1][2] for blk in c["blocks"]]
+        exprs.append(f"coarsen_cooler {G.coq_bins(flat)} {C.zl(sz)} {G.coq_pixels(c['pixels'])} {C.z(c['k'])} {C.z(c['chunksize'])} {C.z(c['nproc'])}")
+    model = C.coq_eval(HDR, exprs, tmpdir=ctx.tmp / "gappedv")
+    for i, (case, mo) in enumerate(zip(cases, model)):
+        ctx.case(case, nontrivial=True, kind="gapped")
+        st, res = gapped_run(tmpdir, f"g{i}", case)
+        if st != "ok":
+            ctx.compare("coarsen on a gapped table", case, st, "ok")
+            ctx.fail(case, {"exception": st, "type": res}, None)
+            continue
+        fbins, out = res
+        ctx.compare("coarsen_bins (gapped table)", case, fbins, [list(r) for r in mo[0]])
+        ctx.compare("coarsen_cooler bins (gapped table)", case, out["bins"], [list(r) for r in mo[0]])
+        ctx.compare("coarsen_cooler pixels (gapped table)", case, out["pixels"], [list(p) for p in mo[1]])
+        bad = gapped_bad(case, fbins, out)
+        if bad:
+            ctx.fail(case, bad, None)
+    return len(cases)
+
+
+def gapped_run(tmpdir, tag, case):
+    import cooler
+    blocks = [[tuple(x) for x in blk] for blk in case["blocks"]]
+    a, o = tmpdir / f"{tag}.cool", tmpdir / f"{tag}_o.cool"
+
+    def go():
+        fbins, _ = impl_coarsen_bins(blocks, case["k"])
+        G.make_cooler(a, blocks, case["pixels"], case["symmetric"])
+        cooler.coarsen_cooler(str(a), str(o), case["k"], chunksize=case["chunksize"], nproc=case["nproc"])
+        return fbins, G.read_cooler(o)
+    st, res = G.guarded(go, 60)
+    for p in (a, o):
+        if p.exists():
+            os.remove(p)
+    return st, res
+
+
+def gapped_bad(case, fbins, out):
+    """each new bin spans exactly its k consecutive old bins: (chrom, start of the first, end of the LAST old bin of
+    the group); the pixel aggregation is index based as always"""
+    blocks = [[tuple(x) for x in blk] for blk in case["blocks"]]
+    ebins, epx = G.oracle_coarsen(blocks, case["pixels"], case["k"])
+    if fbins != ebins:
+        return {"what": "CoolerCoarsener.coarsen_bins on a gapped table", "got": fbins[:20], "expected": ebins[:20]}
+    if out["bins"] != ebins:
+        return {"what": "bin table of the coarsened cooler (gapped table)", "got": out["bins"][:20], "expected": ebins[:20]}
+    if out["pixels"] != epx:
+        return {"what": "pixel table (gapped table)", "got": out["pixels"][:30], "expected": epx[:30]}
+    return G.semantics_bad(out, ebins, epx, case["symmetric"], sum(p[2] for p in case["pixels"]))
+
+
 # ----------------------------------------------------------------------- run
 def run(ctx):
     import time
@@ -1540,7 +1619,7 @@ def run(ctx):
     scopes, times = {}, {}
     for name, fn in (("coarsen_bins_cases", part_bins), ("prune_cases", part_prune), ("api_runs", part_api),
                      ("width_sweep_runs", part_widths), ("chains", part_chain), ("merge_interleavings", part_merge),
-                     ("agg_runs", part_agg), ("param_scenarios", part_params), ("multires_levels", part_multires), ("history_steps", part_history), ("large_genome_runs", part_large), ("cli_field_arrangements", part_cli_fields), ("binsize_sweep_runs", part_binsize_sweep)):
+                     ("agg_runs", part_agg), ("param_scenarios", part_params), ("multires_levels", part_multires), ("history_steps", part_history), ("large_genome_runs", part_large), ("cli_field_arrangements", part_cli_fields), ("binsize_sweep_runs", part_binsize_sweep), ("gapped_table_runs", part_gapped)):
         t0 = time.time()
         scopes[name] = fn(ctx)
         times[name] = round(time.time() - t0, 1)
@@ -1554,6 +1633,9 @@ def replay(ctx, case):
     tmpdir = ctx.tmp
     if fn == "param-scenario":
         return run_scenario(tmpdir, case["label"], SCENARIOS) is None
+    if fn.startswith("coarsen (gapped"):
+        st, res = gapped_run(tmpdir, "replay", case)
+        return st == "ok" and gapped_bad(case, res[0], res[1]) is None
     if fn.endswith("--field arrangements"):
         st, res = field_run(tmpdir, "replay", case)
         return field_bad(case, st, res) is None
